@@ -501,6 +501,9 @@ def project(cfg, res):
     if res["error"]:
         ev.append({"e": "exception", "msg": res["error"]})
     elif res.get("capped"):
+        # a run that needs a small fraction of its step budget on the code as it stands must reach its end time within that budget
+        if cfg.get("must_finish") and len(ev) > 1 and ev[-1].get("e") == "step":
+            ev[-1]["stalled"] = True
         ev.append({"e": "done", "n": len(snaps), "rows": len(snaps)})
     else:
         ev.append({"e": "done", "n": int(d.n), "rows": len(snaps)})
